@@ -107,7 +107,7 @@ def extract(profile='dev', repo=None, quiet=True):
             # bounded cache (≈9 MB per set): the mutants, seeds and benign variants of one base tree hash to the same keys on every
             # run, so a second thorough run of a property re-uses their facts instead of re-running the driver
             ents = sorted(glob.glob(os.path.join(CACHE, 'facts', '*')), key=os.path.getmtime)
-            for e in ents[:-400]:
+            for e in ents[:-1200]:
                 shutil.rmtree(e, ignore_errors=True)
         else:
             os.utime(out, None)
